@@ -3,15 +3,16 @@
 B (deciding tier, bounded): parse_operations vs an independent reference parser over a token grammar;
    parse_path(format_path(segs)) == segs; the same operation lists through the real server at several
    depths / bundle limits / fragment settings (with refused operations and differing route paths).
-P: the integer logic of device.parse_path_component (range -> count, refusal unless > 0).
+P: fragment of connector.issue - the bundle join/flush decision never mixes route or send paths, index/sender-context accounting.
 """
 import itertools
 import random
 
 import z3
 
-from pyvc.spec import Spec
-from pyvc.vals import IntV, NONE, UnionV, Unsupported
+from pyvc.spec import Spec, Loop
+from pyvc.vals import IntV, BoolV, NONE, UnionV, Unsupported
+from pyvc.pure import fresh, to_int
 
 PROPERTY = 'C12'
 LEVEL = 'exploration'
@@ -20,10 +21,15 @@ LEVEL_TEXT = ('Bounded stand-in (labelled bounded): the client (parse_operations
               'grammar (tag / @c/i/a, [i], [a-b], *count, +offset, (TYPE) casts, value lists, fragment on/off), parse_path(format_path(segments)) with the '
               'segments, and runs identical operation lists (refused operations and differing route paths included) through the real simulator over TCP '
               'synchronously, pipelined (depth 2/5) and bundled (limits 100/250/500): one result per operation, same order, same statuses and values.')
-LEVEL_NOTE = ('No deductive obligation: not_applicable for the proof technique, claimed as a bounded exploration only. Schedules are not enumerated. get_attribute.attribute_operations / proxy.read_details are exercised only through the same pipeline. '
-              'No deductive obligation is claimed for this property.')
-TECHNIQUE = 'bounded: reference parser for operation strings, format/parse path round trip, depth/bundle independence against the real simulator over TCP'
-TRUSTED = ['the independent reference parser of the operation syntax in this file']
+LEVEL_NOTE = ('Deciding tier is bounded. One deductive fragment IS discharged for all states (pyvc, z3): the `if multiple:` statement of the operations loop of '
+              'connector.issue - an operation joins a non-empty bundle only if its route and send path equal the bundle\'s, otherwise the bundle is flushed exactly '
+              'once with all collected requests in order under one index and sender context, the index advances by one, and the new bundle carries this '
+              'operation\'s paths. parse_operations, collect / harvest / pipeline and the socket I/O are bounded-only; schedules are not enumerated. '
+              'get_attribute.attribute_operations / proxy.read_details are exercised only through the shared pipeline.')
+TECHNIQUE = ('bounded: reference parser for operation strings, format/parse path round trip, depth/bundle independence against the real simulator over TCP; '
+             'deductive fragment contract (pyvc, z3) on the bundle join/flush decision of connector.issue')
+TRUSTED = ['the independent reference parser of the operation syntax in this file', 'T9 fragment contract: the rest of connector.issue is unverified',
+           'connector.multiple is an assumed callee (ghost call record)']
 ASSUMPTIONS = ['one client connection at a time']
 
 SIZES = {'STRING': (0xd0, 0), 'SSTRING': (0xda, 0), 'SINT': (0xc2, 1), 'USINT': (0xc6, 1), 'INT': (0xc3, 2), 'UINT': (0xc7, 2), 'DINT': (0xc4, 4), 'UDINT': (0xc8, 4), 'LINT': (0xc5, 8), 'ULINT': (0xc9, 8),
@@ -351,5 +357,173 @@ def bounded(tier, seed):
 
 
 # ------------------------------------------------------------------------------------------------ small proof core
+import ast as _ast
+
+CF = 'server/enip/client.py'
+RD = z3.Function('req_descr', z3.IntSort(), z3.IntSort())      # the (descr, op, request) ids of the j-th request already collected in the bundle
+RO = z3.Function('req_op', z3.IntSort(), z3.IntSort())
+RR = z3.Function('req_req', z3.IntSort(), z3.IntSort())
+NREQ = z3.Int('_g_nreq')
+
+
+def frag_bundle(eng, fdef):
+    """the `if multiple:` statement in the body of the `for op in operations:` loop of connector.issue (join the bundle, or flush it).
+    Checked on the AST as well: outside that statement `requests` and `requests_paths` are only ever assigned together, as `[]` and `{}`
+    (the state "no collected request <=> no recorded path" the contract requires on entry holds initially)."""
+    frag = None
+    for n in _ast.walk(fdef):
+        if isinstance(n, _ast.For) and _ast.unparse(n.iter) == 'operations':
+            for st in n.body:
+                if isinstance(st, _ast.If) and _ast.unparse(st.test) == 'multiple':
+                    frag = st
+    if frag is None:
+        raise Unsupported('stale contract: connector.issue has no `if multiple:` statement in its operations loop')
+    inside = set(id(x) for x in _ast.walk(frag))
+    inits = {}
+    for n in _ast.walk(fdef):
+        if id(n) in inside:
+            continue
+        if isinstance(n, (_ast.Assign, _ast.AugAssign)):
+            for t in (n.targets if isinstance(n, _ast.Assign) else [n.target]):
+                for nm in _ast.walk(t):
+                    if isinstance(nm, _ast.Name) and nm.id in ('requests', 'requests_paths'):
+                        inits.setdefault(nm.id, []).append(_ast.unparse(n.value) if isinstance(n, _ast.Assign) and isinstance(t, _ast.Name) else '?')
+        if isinstance(n, _ast.Call) and isinstance(n.func, _ast.Attribute) and isinstance(n.func.value, _ast.Name) \
+                and n.func.value.id in ('requests', 'requests_paths') and n.func.attr not in ('get',):
+            raise Unsupported('stale contract: %s is changed outside the `if multiple:` statement (line %d)' % (n.func.value.id, n.lineno))
+    if inits.get('requests') != ['[]'] or inits.get('requests_paths') != ['{}']:
+        raise Unsupported('stale contract: requests / requests_paths are not initialised exactly once as [] / {} outside the `if multiple:` statement: %r' % (inits,))
+    return [frag]
+
+
+def _rl(pe, x):
+    from pyvc.vals import RefV, PyListV
+    if isinstance(x, RefV) and hasattr(pe, 'st'):
+        x = pe.st.heap[(x.id, 'val')]
+    return x
+
+
+def rlen(pe, x):
+    from pyvc.vals import PyListV, ListV
+    x = _rl(pe, x)
+    if isinstance(x, Appended):
+        return IntV(x.n + len(x.extra))
+    if isinstance(x, PyListV):
+        return IntV(len(x.items))
+    if isinstance(x, ListV):
+        return IntV(x.n)
+    raise Unsupported('rlen(%r)' % (x,))
+
+
+def rlast(pe, x):
+    from pyvc.vals import PyListV
+    x = _rl(pe, x)
+    if isinstance(x, Appended):
+        return x.extra[-1]
+    if isinstance(x, PyListV) and x.items:
+        return x.items[-1]
+    raise Unsupported('rlast(%r)' % (x,))
+
+
+BFUNCS = dict(rlen=rlen, rlast=rlast, rd=lambda pe, j: IntV(RD(to_int(j))), ro=lambda pe, j: IntV(RO(to_int(j))), rr=lambda pe, j: IntV(RR(to_int(j))))
+
+
+def requests_list(eng, name, st):
+    from pyvc.vals import ListV, TupV
+    st = st.clone()
+    st.pc.append(NREQ >= 0)
+    eng.init_vals['_g_nreq'] = IntV(NREQ)
+    ix = lambda i: i if z3.is_expr(i) else z3.IntVal(i)
+    return eng.new_list(st, ListV(NREQ, lambda i: TupV([IntV(RD(ix(i))), IntV(RO(ix(i))), IntV(RR(ix(i)))]), tag='requests'))[::-1]
+
+
+class Appended(object):
+    """the collected requests after an append: the old ghost list (first n) followed by the given items"""
+    def __init__(self, n, extra):
+        self.n, self.extra = n, list(extra)
+
+
+def requests_append(eng, ref, cur, x, st, n, store):
+    from pyvc.vals import ListV
+    if isinstance(cur, ListV) and cur.tag == 'requests':
+        yield store(st, Appended(cur.n, [x])), NONE
+        return
+    raise Unsupported('append to %r' % (cur,))
+
+
+def multiple_call(eng, recv, args, kw, st, n):
+    """ASSUMED effect of connector.multiple (builds and sends one Multiple Service Packet): recorded in ghost variables - how many times it
+    was called, with how many member requests (and that they are the collected ones, in order), which paths and which sender context"""
+    from pyvc.vals import ListV, RefV
+    req = eng.deref_list(kw.get('request'), st)
+    if not isinstance(req, ListV):
+        raise Unsupported('multiple(request=%r)' % (req,))
+    k = z3.Int('k!mul')
+    same = z3.ForAll([k], z3.Implies(z3.And(0 <= k, k < NREQ), to_int(req.get(k)) == RR(k)))
+    paths = kw.get('**')
+    if not (isinstance(paths, RefV) and paths.kind == 'rec'):
+        raise Unsupported('multiple(**%r)' % (paths,))
+    s = st.clone()
+    s.ghost = dict(s.ghost)
+    s.ghost['mul_calls'] = IntV(to_int(s.ghost['mul_calls']) + 1)
+    s.ghost['mul_members'] = IntV(req.n)
+    s.ghost['mul_in_order'] = BoolV(same)
+    s.ghost['mul_has_paths'] = BoolV(z3.And(eng.rec_has(s, paths, 'route_path'), eng.rec_has(s, paths, 'send_path')))
+    s.ghost['mul_route'] = s.heap[(paths.id, 'route_path')][1]
+    s.ghost['mul_send'] = s.heap[(paths.id, 'send_path')][1]
+    s.ghost['mul_ctx'] = kw.get('sender_context')
+    yield s, IntV(fresh('mul'))
+
+
+def some_time(eng, recv, args, kw, st, n):
+    """misc.timer(): some number (only used for log texts here)"""
+    yield st, IntV(fresh('now'))
+
+
+def issue_bundle_spec(repo):
+    PATHS = ('Rec', {'route_path?': 'OptInt', 'send_path?': 'OptInt'})
+    loc = {'multiple': 'Int', 'requests': requests_list, 'requests_paths': PATHS, 'op': PATHS, 'reqsiz': 'Int', 'rpysiz': 'Int', 'reqest': 'Int',
+           'rpyest': 'Int', 'reqmin': 'Int', 'rpymin': 'Int', 'index': 'Int', 'sender_context': 'Int', 'descr': 'Int', 'req': 'Int',
+           'timeout': 'OptInt', 'begun': 'Int', 'elapsed': 'Int'}
+    JOIN = ("(_g_nreq == 0 or max(reqsiz + reqest, rpysiz + rpyest) < multiple) and "
+            "(requests_paths.route_path if has(requests_paths, 'route_path') else op_route) == op_route and "
+            "(requests_paths.send_path if has(requests_paths, 'send_path') else op_send) == op_send")
+    return Spec('connector.issue[bundle: join or flush]', (CF, 'connector.issue'), params={}, fragment=frag_bundle, yields=5,
+                hints=dict(locals=loc, list_append=requests_append, funcs=BFUNCS),
+                loops={1: Loop(index='K', invariant=[('yielded so far', 'NOUT == K and forall(0, K, lambda j: OUT(j)[0] == index and OUT(j)[1] == sender_context '
+                                                                       'and OUT(j)[2] == rd(j) and OUT(j)[3] == ro(j) and OUT(j)[4] == rr(j))')])},
+                ghost=dict(mul_calls=('Int', '0'), mul_members=('Int', '0'), mul_in_order=('Bool', 'False'), mul_has_paths=('Bool', 'False'),
+                           mul_route=('OptInt', 'None'), mul_send=('OptInt', 'None'), mul_ctx=('Int', '0')),
+                defs=dict(op_route="(op.route_path if has(op, 'route_path') else None)", op_send="(op.send_path if has(op, 'send_path') else None)",
+                          JOIN=JOIN),
+                requires="multiple > 0 and implies(_g_nreq > 0, has(requests_paths, 'route_path') and has(requests_paths, 'send_path')) and "
+                         "implies(_g_nreq == 0, not has(requests_paths, 'route_path') and not has(requests_paths, 'send_path'))",
+                ensures=[('never mixed: an operation joins a non-empty bundle only if its route and send path are the bundle\'s',
+                          "implies(mul_calls == 0 and _g_nreq > 0, old(requests_paths.route_path) == op_route and old(requests_paths.send_path) == op_send)"),
+                         ('joined exactly when it fits and the paths agree; otherwise the bundle is flushed exactly once',
+                          "(mul_calls == 0) == JOIN and mul_calls <= 1"),
+                         ('a flush sends all collected requests, in order, with the bundle\'s paths and sender context',
+                          "implies(mul_calls == 1, mul_members == _g_nreq and mul_in_order and mul_has_paths and "
+                          "mul_route == old(requests_paths.route_path) and mul_send == old(requests_paths.send_path) and mul_ctx == old(sender_context))"),
+                         ('a flush yields every collected request once, in order, under the one index and sender context of the bundle',
+                          "implies(mul_calls == 1, NOUT == _g_nreq and forall(0, _g_nreq, lambda j: OUT(j)[0] == old(index) and OUT(j)[1] == old(sender_context) "
+                          "and OUT(j)[2] == rd(j) and OUT(j)[3] == ro(j) and OUT(j)[4] == rr(j)))"),
+                         ('joining yields nothing and keeps the index', "implies(mul_calls == 0, NOUT == 0 and _f_index == old(index))"),
+                         ('a flush advances the index by exactly one', "implies(mul_calls == 1, _f_index == old(index) + 1)"),
+                         ('afterwards the bundle ends with this operation and carries its paths',
+                          "has(_f_requests_paths, 'route_path') and has(_f_requests_paths, 'send_path') and "
+                          "implies(mul_calls == 1 or _g_nreq == 0, _f_requests_paths.route_path == op_route and _f_requests_paths.send_path == op_send)"),
+                         ('the entry condition holds again: the bundle is non-empty and both paths are recorded',
+                          "rlen(_f_requests) > 0 and has(_f_requests_paths, 'route_path') and has(_f_requests_paths, 'send_path')"),
+                         ('the operation is appended last', "rlast(_f_requests)[0] == descr and rlast(_f_requests)[2] == req and "
+                                                            "rlen(_f_requests) == (_g_nreq + 1 if mul_calls == 0 else 1)"),
+                         ('size accounting', "implies(mul_calls == 0, _f_reqsiz == reqsiz + reqest and _f_rpysiz == rpysiz + rpyest) and "
+                                             "implies(mul_calls == 1, _f_reqsiz == reqmin and _f_rpysiz == rpymin)")],
+                raises={}, modifies=['requests.val', 'requests_paths.route_path', 'requests_paths.send_path'], callees={'connector.multiple': multiple_call, 'multiple': multiple_call, 'misc.timer': some_time},
+                note='FRAGMENT (T9) of connector.issue: the `if multiple:` statement of the operations loop. With the invariant "every collected request '
+                     'has the paths recorded in requests_paths" (preserved by the first and the last clause), a bundle never mixes route or send paths. '
+                     'connector.multiple is an assumed callee (ghost call record); route/send paths are compared as opaque identities.')
+
+
 def contracts(repo):
-    return []
+    return [issue_bundle_spec(repo)]
